@@ -9,7 +9,7 @@ ID = 'C06'
 LEVEL = 'exploration'
 BUDGET = {'quick': 150, 'thorough': 1800}
 CHUNK = 1
-RULE = ('Cases: arbitrary sample-by-k-mer tables (1..12 samples x 1..60 rows; row styles: all bases, near-constant, all 15 '
+RULE = ('Cases: arbitrary sample-by-k-mer tables (1..12 samples x 1..60 rows, plus a few per run of 3..45 samples x 1500..12000 rows; row styles: all bases, near-constant, all 15 '
         'codes and gaps, one ambiguous among constant, two alleles with gaps; forced rows: all-equal, all-equal-but-one-gap, '
         'only-ambiguous, one-unambiguous-rest-ambiguous, every presence count 1..n) built through `ska build` and verified '
         'by read-out.  For each table the full grid 4 filters x filter-ambig-as-missing x ambig-mask x no-gap-only-sites is '
@@ -20,7 +20,7 @@ ASSUMPTIONS = ['min-freq is passed as a short decimal string; the oracle uses th
                'tables are constructed through ska build (one record arm+base+arm+N per cell), verified before judging']
 FILTERS = ['no-filter', 'no-const', 'no-ambig', 'no-ambig-or-const']
 REQUIRED = {t: ['filter:' + f for f in FILTERS] + ['rows_kept', 'rows_dropped', 'threshold_boundary_rows',
-                                                   'submultiset_relations_checked', 'float_sensitive_thresholds', 'pretreated_files', 'aligns_to_reused_output_file']
+                                                   'submultiset_relations_checked', 'float_sensitive_thresholds', 'pretreated_files', 'aligns_to_reused_output_file', 'large_tables']
             for t in ('quick', 'thorough')}
 
 
@@ -56,9 +56,13 @@ def plan(tier, seed, rng, scale):
     for j in range(6 if tier == 'quick' else 60):
         n_, f_ = FLOAT_PAIRS[j % len(FLOAT_PAIRS)]
         descs.append({'ns': n_, 'k': rng.choice([7, 15, 31, 33]), 'seed': rng.getrandbits(32), 'full': False, 'mf': f_})
+    for j in range(5 if tier == 'quick' else 40):
+        # thousands of rows (and sometimes dozens of samples): passes over the table beyond their small-input paths
+        descs.insert(15 + 9 * j, {'ns': rng.choice([3, 8, 12, 30, 45]), 'k': rng.choice([15, 31, 33]), 'seed': rng.getrandbits(32), 'full': False,
+                                  'nrows': rng.choice([1500, 4500] if tier == 'quick' else [1500, 4500, 12000])})
     for i, d in enumerate(descs):
-        d['chk'] = (i % 6 == 0)
-        if i % 4 == 1 and d['ns'] <= 12 and (10000 % d['ns'] == 0 or d['ns'] in (3, 6, 7, 9, 11, 12)):
+        d['chk'] = (i % 6 == 0) and not d.get('nrows')
+        if i % 4 == 1 and d['ns'] <= 12 and not d.get('nrows') and (10000 % d['ns'] == 0 or d['ns'] in (3, 6, 7, 9, 11, 12)):
             # min-freq giving a weed threshold of exactly one sample (floor(f*n) = 1)
             d['pretreat'] = {1: '1', 2: '0.5', 3: '0.34', 4: '0.25', 5: '0.2', 6: '0.17', 7: '0.15', 8: '0.125', 9: '0.12',
                              10: '0.1', 11: '0.1', 12: '0.09'}[d['ns']]
@@ -82,8 +86,8 @@ def forced_rows(rng, ns):
     return rows
 
 
-def make_case_table(rng, k, ns):
-    rows = G.make_table(rng, k, ns, rng.randint(1, 45 if ns <= 12 else 8))
+def make_case_table(rng, k, ns, nrows=None):
+    rows = G.make_table(rng, k, ns, nrows or rng.randint(1, 45 if ns <= 12 else 8))
     for r in forced_rows(rng, ns):
         while True:
             arms = G.canonical_arms(rng, k)
@@ -134,7 +138,9 @@ def run_case(desc, ctx):
     res = Result()
     k, ns = desc['k'], desc['ns']
     rng = random.Random(desc['seed'])
-    rows = make_case_table(rng, k, ns)
+    rows = make_case_table(rng, k, ns, desc.get('nrows'))
+    if desc.get('nrows'):
+        res.count('large_tables')
     res.see('nsamples', ns)
     res.see('k', k)
     for variant in (['rel', 'chk'] if desc.get('chk') else ['rel']):
